@@ -103,6 +103,26 @@ unsafe fn maybe_pipe_hook() {
     }
 }
 
+/// the same hook at the parent's first `read` of a traced launch -- the read of the launch-status channel, which lasts for
+/// the child's whole pre-exec phase: what a spawn issued by another thread during that time inherits
+pub static mut READ_HOOK_ON: bool = false;
+static mut READ_FIRED: bool = false;
+
+unsafe fn maybe_read_hook() {
+    if ST.in_child || IN_HOOK || !READ_HOOK_ON || READ_FIRED {
+        return;
+    }
+    READ_FIRED = true;
+    if let Some(h) = PIPE_HOOK {
+        IN_HOOK = true;
+        let was = ST.on;
+        ST.on = false;
+        h();
+        ST.on = was;
+        IN_HOOK = false;
+    }
+}
+
 /// log a line before a waitpid blocks (pipe engine: what the parent holds while it waits)
 pub static mut VERBOSE_WAIT: bool = false;
 
@@ -244,6 +264,7 @@ pub fn start(faults: &[Fault], fake_exec: bool) {
         }
         ST.counters = [[0; NK]; 2];
         PIPE_SEEN = 0;
+        READ_FIRED = false;
         ST.tid = gettid();
         ST.in_child = false;
         ST.fake_exec = fake_exec;
@@ -301,7 +322,10 @@ pub unsafe extern "C" fn pipe(fds: *mut c_int) -> c_int {
     }
     let r = libc::syscall(libc::SYS_pipe2, fds, 0) as c_int;
     if r == 0 {
-        log(format_args!("pipe -> {} {}", *fds, *fds.add(1)));
+        // the pipe's identity (st_dev:st_ino), so that a copy of either end can be recognised in a child's table
+        let mut st: libc::stat = std::mem::zeroed();
+        libc::syscall(libc::SYS_fstat, *fds as c_long, &mut st as *mut libc::stat);
+        log(format_args!("pipe -> {} {} id={}:{}", *fds, *fds.add(1), st.st_dev, st.st_ino));
         maybe_pipe_hook();
     } else {
         log(format_args!("pipe -> E{}", errno()));
@@ -660,6 +684,7 @@ pub unsafe fn trace_read(fd: c_int, buf: *mut c_void, n: usize) -> Option<isize>
     if !active() {
         return None;
     }
+    maybe_read_hook();
     if let Some(e) = fault(Kind::Read) {
         set_errno(e);
         log(format_args!("read {} {} -> E{}", fd, n, e));
